@@ -88,3 +88,20 @@ add("C28", "model_checking",
     "generation) replaced by a stub that fails according to a symbolic index: exit 0 iff no stage failed, exit 1 with a correctly formatted report holding exactly the "
     "injected errors otherwise, never an exception. Beside it, concretely: the five recorded cases are diffed and the verdict is compared with the real pipeline on the repository's models.",
     "The stages are stubbed in the symbolic part; the agreement with the real stages is only established on the repository's fixtures (concrete).")
+
+add("C23", "model_checking",
+    "bounded symbolic execution (CrossHair/z3) of main.main/Parameters/execute and run.load_model over symbolic histories of runs (model text and --cache_model per run) on a logged in-memory file system",
+    "Histories of up to 3 (4) generator runs share one in-memory file system; per run the model text and the cache flag are symbolic; the real argv parsing, Parameters, "
+    "main.execute and run.load_model run with pathlib/pickle/uuid replaced by logging stand-ins and the front end replaced by an uninterpreted function of the text. "
+    "Asserted per run: without the flag no operation touches the cache directory; every write is inside the output directory (or the cache directory with the flag); "
+    "status, streams, output and the symbol table handed to the generator are those of an uncached run on this run's text.",
+    "Finite family (four texts, flags): the solver acts as an enumerator, stated. pickle is a box; a concrete pickle round trip of the repository's real symbol tables "
+    "(lookups by name and id after unpickling) is reported beside the verdict.")
+
+add("C24", "model_checking",
+    "z3 bounded model checking of the cache protocol: transition system generated from the operation trace recorded from the real run.load_model, all interleavings of N runs and one crash point per run; counterexamples replayed on the real code with threads; plus CrossHair symbolic crash index over sequential histories",
+    "The cache branch of the real load_model is executed on a logging in-memory file system (cold and warm); the recorded operations with their file roles become the program of "
+    "N concurrent runs in a z3 transition system (file state absent/partial/complete + owner text, scheduling variable per step, crash point per run). z3 decides for ALL schedules and crash "
+    "points within the bound that no load sees a partial or foreign entry, every completed run returns its own table without raising, and only temporary names may stay partial. "
+    "A second, model-free part runs the real load_model in sequential histories where each run dies before a symbolic operation index.",
+    "N = 2 (thorough 2 and 3) runs, two texts. POSIX semantics assumed (atomic rename, per-name atomic operations); a crash skips finally blocks. The extractor refuses (reports) programs it does not understand.")
